@@ -66,6 +66,88 @@ CHECKS = {
              "Partial (named): pre-emption of threads inside the library's own statements is not exhibited by the "
              "turnstile; tasks spawned from inside a running check inherit that suspension by value (stated, not hidden).",
         design="DESIGN.md section 6 C12"),
+    "C03": dict(
+        text="Theorems: around a public operation the selected invariants are evaluated before (a falsy one keeps the "
+             "body from running) and after, the first falsy one in list order is reported, after a constructor all of "
+             "them (C03_before_and_after, C03_after_constructor, C03_first_falsy_invariant over Model/Checker.v); the "
+             "member-selection rule of add_invariant_checks touches exactly public/dunder functions, slot wrappers and "
+             "properties, never _x, class/static methods, __new__, __repr__, __getattribute__, and __setattr__ only on "
+             "request (C03_selection over Model/Elab.v). Tie: pinned invariant-wrapper skeletons; run-time "
+             "correspondence (methods, properties, __init__ with invariants) and definition histories whose wrapped "
+             "members are compared with the must-wrap rule computed from the declarations (spec_C03_selection).",
+        note=TB + "Partial: histories of operations and nested constructors (super().__init__ at any position) are "
+             "covered by the Run model for one class per instance; kf_C03_newstyle (D4b) is a known finding.",
+        design="DESIGN.md section 6 C03"),
+    "C04": dict(
+        text="Theorems: the merge at class creation denotes OR over inherited and own precondition groups (C04_pre_or), "
+             "keeps the inherited precondition when none is declared (C04_pre_kept), accepts all without any "
+             "(C04_accept_all), AND over postconditions (C04_post_and), rejects weakening without base preconditions "
+             "(C04_weaken_rejected); the generated collapse_* functions refine the model's merge (Proofs/ElabRefine.v); "
+             "C04_accept_all_refuted exhibits the known finding. Tie: definition histories with single and multiple "
+             "inheritance on DBC, every member kind; the lists found through find_checker are compared with the "
+             "effective contracts computed from the declarations along the MRO (spec_C04).",
+        note=TB + "The whole-class-table induction (any DAG) is not proved; general DAGs are checked by correspondence. "
+             "kf_C04_accept_all (D6) is a known finding.",
+        design="DESIGN.md section 6 C04"),
+    "C08": dict(
+        text="Theorems: the trace of a checked call is pre ++ captures ++ body ++ post; captures occur only after the "
+             "effective precondition held and only with postconditions and snapshots, each exactly once in order when "
+             "the body is entered (C08_once_between); postconditions see the values captured from the pre-body store "
+             "whatever the body does (C08_old_values); none when a precondition fails. Definition-time rejections "
+             "(Props/C19.v). Tie: run-time correspondence with spec_C08, definition histories with spec_C19_defs.",
+        note=TB, design="DESIGN.md section 6 C08"),
+    "C09": dict(
+        text="Theorems: dispatch on the error argument - default ViolationError, class instantiated with the message, "
+             "instance raised as is with nothing else called, factory called once with exactly the values it names "
+             "and its result raised, non-exception result and missing names a TypeError (C09_default/_class/_instance/"
+             "_factory), at most one factory call per contract and check (C09_factory_at_most_once); invalid error "
+             "arguments rejected at construction (C19_invalid_decorator). Tie: correspondence with spec_C09.",
+        note=TB + "ViolationError <: AssertionError and the message text are checked by the harness, not modelled.",
+        design="DESIGN.md section 6 C09"),
+    "C13": dict(
+        text="Theorems: the async wrapper, awaited, equals the sync wrapper in which coroutine conditions/captures are "
+             "replaced by their awaited values (C13_awaited), hence equal traces and outcomes for sync-valued contracts "
+             "(C13_same_observation); on a sync callable a coroutine condition/capture is rejected without truth test "
+             "(C13_sync_rejects_*). Tie: skeleton parity lemmas over the wrappers regenerated from /repo (async with "
+             "await erased = sync, five pairs) + paired correspondence (each case rendered with def and async def).",
+        note=TB, design="DESIGN.md section 6 C13"),
+    "C14": dict(
+        text="Theorems: with satisfied contracts the caller receives the body's very object or exception, the body is "
+             "entered and receives what Python binds (C14_result_unchanged, _exception_unchanged, _body_entered, "
+             "_identical_arguments). Tie: correspondence (spec_C14), decorator stacks with foreign functools.wraps "
+             "decorators: one checker, all foreign decorators kept in order, original at the end (spec_C14_stacks), "
+             "members resolve as declared along the MRO (spec_C04), selection (spec_C03_selection).",
+        note=TB + "Partial (correspondence only): metadata preservation (__name__, signature, abstractness, "
+             "coroutine-ness) is a functools/inspect fact. The single-checker clause is checked, not yet proved.",
+        design="DESIGN.md section 6 C14"),
+    "C16": dict(
+        text="Theorems: phase order pre, snapshots, body, post with invariants strictly outside (C16_phase_order, "
+             "C16_invariants_outermost); groups tried in order until one holds, each stops at its first falsy "
+             "condition, error of the first falsy one of the last group / first falsy postcondition (C16_groups, "
+             "C16_first_falsy_postcondition); each condition at most once per check, a lambda once more, each factory "
+             "at most once (C16_at_most_once); base lists precede own (Proofs/ElabRefine.v). Tie: spec_C16 + spec_C04.",
+        note=TB, design="DESIGN.md section 6 C16"),
+    "C17": dict(
+        text="Theorem: decorating a function with any decorator stack leaves every list cell, function object, class, "
+             "binding and registration that existed before unchanged (C17_function_decoration_frame, over the heap "
+             "model of Model/Elab.v where aliasing is explicit). Class statements: checked on every run by "
+             "correspondence (contents and identity of all lists of all earlier classes after each step, spec_C17).",
+        note=TB + "Partial: the frame theorem for class statements is stated in Props/C17.v but not proved.",
+        design="DESIGN.md section 6 C17"),
+    "C18": dict(
+        text="Theorems: judging a call by hand over the introspected lists (DNF, then CNF on the result) gives the "
+             "verdict of the call (C18_manual_precondition_verdict, C18_manual_postcondition_verdict). Tie: the lists "
+             "found through find_checker equal the effective contracts computed from the declarations (spec_C04); every "
+             "class created through DBCMeta is announced exactly once, in order (spec_C18_registered).",
+        note=TB + "Registration is checked by correspondence, not proved.", design="DESIGN.md section 6 C18"),
+    "C19": dict(
+        text="Theorems (case analysis over Model/Elab.v and the guards of checker_call): invalid decorators abort the "
+             "definition with their documented exception before anything is decorated, _ARGS/_KWARGS parameters are a "
+             "TypeError at decoration, snapshots without a postcondition or with a duplicate name a ValueError, "
+             "_ARGS/_KWARGS keywords and result/OLD parameters a TypeError at the call before any condition "
+             "(C19_*). Tie: definition histories with misuse; the exception class of each definition is compared with "
+             "the set of misuses computed from the declarations (spec_C19_defs).",
+        note=TB, design="DESIGN.md section 6 C19"),
 }
 
 PENDING = "check under construction in this session (model and theorems not yet committed)"
